@@ -36,7 +36,7 @@ def dc_replace(interp, obj, **changes):
             raise PyRaise("TypeError", f"__init__() got an unexpected keyword argument {k!r}")
     attrs = dict(obj.content)
     attrs.update(changes)
-    return new_obj(obj.cls, attrs, frozen=cur().heap[obj.sid].meta.get("frozen", False))
+    return new_obj(obj.cls, attrs, frozen=cur().heap[obj.sid].meta.get("frozen", False), built_by_contract=cur().heap[obj.sid].meta.get("built_by_contract", False))
 
 
 def pd_read_csv(interp, path, sep=None, skiprows=None, nrows=None, **kw):
